@@ -666,7 +666,8 @@ def poly_of(e, atomizer, depth=0):
 
 # ---------------------------------------------------------------- decision tables of loop-free bodies
 
-_STD_VARIANTS = {"None": 0, "Some": 1, "Ok": 0, "Err": 1, "Continue": 0, "Break": 1, "Less": 255, "Equal": 0, "Greater": 1}
+_STD_VARIANTS = {"None": 0, "Some": 1, "Ok": 0, "Err": 1, "Continue": 0, "Break": 1, "Less": 255, "Equal": 0, "Greater": 1,
+                 "Included": 0, "Excluded": 1, "Unbounded": 2}
 
 
 def decision_paths(fn, limit=400, with_calls=False, with_env=False):
@@ -749,7 +750,7 @@ def decision_paths(fn, limit=400, with_calls=False, with_env=False):
             # discriminant of a value whose variant is known on this path (std enums): a constant
             if inner[0] == "agg" and isinstance(inner[1], str):
                 head, _, var = inner[1].rpartition("::")
-                if var in _STD_VARIANTS and any(head.endswith(x) for x in ("option::Option", "result::Result", "ops::ControlFlow", "cmp::Ordering")):
+                if var in _STD_VARIANTS and any(head.endswith(x) for x in ("option::Option", "result::Result", "ops::ControlFlow", "cmp::Ordering", "ops::Bound", "range::Bound")):
                     return ("const", _STD_VARIANTS[var], None, "isize")
             return ("discr", inner, rv.get("of"))
         if "agg" in rv:
